@@ -739,4 +739,151 @@ Proof.
   fold (fin s p) in Q. rewrite (fin_both_changed s p x y Ea Eb N1 N2 N3) in Q. injection Q as -> -> _. auto.
 Qed.
 
+(** ** Naming the directories in the other order *)
+
+Definition swap_state (s : state) : state := {| tA := tB s; tB := tA s; arch := arch s |}.
+
+(** [dge] is a comparison of a total order: on DIFFERENT digests exactly one of the
+    two directions holds (true of the byte-wise [>=] on 32-byte arrays).  Ties need
+    no premise: a both-changed conflict always has two different digests. *)
+Definition dge_asym : Prop := forall d d' : D, d <> d' -> dge d' d = negb (dge d d').
+
+Lemma loser_swap x y : dge_asym -> Hh x <> Hh y -> loser y x = loser x y.
+Proof. intros As N. unfold loser. rewrite (As (Hh x) (Hh y) N). destruct (dge (Hh x) (Hh y)); reflexivity. Qed.
+
+Lemma winner_swap x y : dge_asym -> Hh x <> Hh y -> winner y x = winner x y.
+Proof. intros As N. unfold winner. rewrite (As (Hh x) (Hh y) N). destruct (dge (Hh x) (Hh y)); reflexivity. Qed.
+
+Lemma conflict_swap s p : dge_asym -> conflict (swap_state s) p = conflict s p.
+Proof.
+  intros As.
+  assert (X : forall s0 q l, conflict s0 p = Some (q, l) -> conflict (swap_state s0) p = Some (q, l)).
+  { intros s0 q l E. apply conflict_changed in E as (x & y & Ea & Eb & N1 & N2 & N3 & -> & ->).
+    apply conflict_changed. exists y, x. cbn. rewrite (loser_swap x y As N1). auto 10. }
+  destruct (conflict s p) as [[q l]|] eqn:E; [apply X, E|].
+  destruct (conflict (swap_state s) p) as [[q l]|] eqn:E'; [|reflexivity].
+  apply X in E'. destruct s. unfold swap_state in E'. cbn in E'. congruence.
+Qed.
+
+Lemma fin_swap s p : dge_asym -> HashOk s -> fin (swap_state s) p = fin s p.
+Proof.
+  intros As Hok. unfold fin, final_content. cbn.
+  destruct (tA s !! p) as [x|] eqn:Ea, (tB s !! p) as [y|] eqn:Eb; try reflexivity.
+  destruct (decide (Hh x = Hh y)) as [E|N].
+  - rewrite decide_True by congruence. f_equal. symmetry. eapply Hok; eauto.
+  - rewrite (decide_False (P := Hh y = Hh x)) by congruence.
+    destruct (decide (base_at (arch s) p = Some (Hh x))) as [Ex|Nx],
+             (decide (base_at (arch s) p = Some (Hh y))) as [Ey|Ny]; try reflexivity; [congruence|].
+    rewrite (winner_swap x y As N). reflexivity.
+Qed.
+
+Lemma HashOk_swap s : HashOk s -> HashOk (swap_state s).
+Proof. intros Hok p x y Ea Eb E. cbn in *. symmetry. eapply Hok; eauto. Qed.
+
+Lemma Fresh_swap s : dge_asym -> Fresh s -> Fresh (swap_state s).
+Proof.
+  intros As [F1 F2]. split.
+  - intros p q l E. rewrite conflict_swap in E by exact As. cbn. destruct (F1 p q l E); tauto.
+  - intros p1 p2 q l1 l2 E1 E2. rewrite conflict_swap in E1, E2 by exact As. eauto.
+Qed.
+
+Lemma expected_swap s x : dge_asym -> HashOk s -> Fresh s -> expected (swap_state s) x = expected s x.
+Proof.
+  intros As Hok F. destruct (conflict_name_dec s x) as [[[p l] E]|N].
+  - cbn in E. rewrite (expected_name s p x l F E). apply (expected_name _ p); [apply Fresh_swap; assumption|].
+    rewrite conflict_swap by exact As. exact E.
+  - rewrite (expected_other s x N), expected_other; [apply fin_swap; assumption|].
+    intros p l. rewrite conflict_swap by exact As. apply N.
+Qed.
+
+Lemma swap_symmetric s s' e pl :
+  dge_asym -> HashOk s -> Fresh s -> bisync_run s = (s', e, pl) ->
+  exists pl', bisync_run (swap_state s) = (swap_state s', e, pl').
+Proof.
+  intros As Hok F R. rewrite (run_result s Hok F) in R. injection R as <- <- _.
+  pose proof (HashOk_swap s Hok) as Hok'. pose proof (Fresh_swap s As F) as F'.
+  rewrite (run_result _ Hok' F'). eexists. f_equal. f_equal.
+  - change (swap_state {| tA := wA (wfinal s); tB := wB (wfinal s); arch := Some (wC (wfinal s)) |})
+      with ({| tA := wB (wfinal s); tB := wA (wfinal s); arch := Some (wC (wfinal s)) |} : state).
+    f_equal.
+    + apply map_eq. intros x. destruct (run_lookup _ Hok' F' x) as (-> & _ & _).
+      destruct (run_lookup _ Hok F x) as (_ & -> & _). apply expected_swap; assumption.
+    + apply map_eq. intros x. destruct (run_lookup _ Hok' F' x) as (_ & -> & _).
+      destruct (run_lookup _ Hok F x) as (-> & _ & _). apply expected_swap; assumption.
+    + f_equal. apply map_eq. intros x. destruct (run_lookup _ Hok' F' x) as (_ & _ & ->).
+      destruct (run_lookup _ Hok F x) as (_ & _ & ->). f_equal. apply expected_swap; assumption.
+  - pose proof (inv_conf _ _ _ (final_inv s Hok F)) as Ic.
+    pose proof (inv_conf _ _ _ (final_inv _ Hok' F')) as Ic'.
+    assert (X : wConf (wfinal (swap_state s)) <> 0 <-> wConf (wfinal s) <> 0).
+    { rewrite Ic, Ic'. unfold keys. cbn. split; intros (p & Hp & Hc); exists p.
+      - rewrite conflict_swap in Hc by exact As. split; [set_solver|exact Hc].
+      - rewrite conflict_swap by exact As. split; [set_solver|exact Hc]. }
+    destruct (decide (wConf (wfinal (swap_state s)) = 0)), (decide (wConf (wfinal s) = 0)); tauto.
+Qed.
+
+(** ** C02: no version is lost *)
+
+Definition side_tree (sd : side) (s : state) : gmap K content :=
+  match sd with SA => tA s | SB => tB s end.
+Definition other (sd : side) : side := match sd with SA => SB | SB => SA end.
+
+(** [c], held at [p] before the run from [s], is on BOTH sides after it: at [p], or
+    at the conflict name this run generated for [p] with loser [c] *)
+Definition kept (s s' : state) (p : K) (c : content) : Prop :=
+  exists x, (x = p \/ conflict s p = Some (x, c)) /\ tA s' !! x = Some c /\ tB s' !! x = Some c.
+
+(** [c] at [p] on side [sd] is the recorded version and the other side has since
+    changed or deleted the path *)
+Definition superseded (s : state) (sd : side) (p : K) (c : content) : Prop :=
+  exists z, arch s = Some z /\ z !! p = Some (Hh c) /\ side_tree (other sd) s !! p <> Some c.
+
+Lemma base_at_Some (base : option (gmap K D)) p d :
+  base_at base p = Some d -> exists z, base = Some z /\ z !! p = Some d.
+Proof. destruct base as [z|]; cbn; [eauto|discriminate]. Qed.
+
+Lemma run_no_loss s s' e pl :
+  HashOk s -> Fresh s -> bisync_run s = (s', e, pl) ->
+  forall sd p c, side_tree sd s !! p = Some c -> kept s s' p c \/ superseded s sd p c.
+Proof.
+  intros Hok F R sd p c Hc. rewrite (run_result s Hok F) in R. injection R as <- _ _.
+  unfold kept, superseded. cbn.
+  assert (Hk : p ∈ keys s) by (apply elem_of_keys; destruct sd; cbn in Hc; eauto).
+  assert (L : forall x, (x = p \/ conflict s p = Some (x, c)) -> expected s x = Some c ->
+              exists x, (x = p \/ conflict s p = Some (x, c)) /\
+                        wA (wfinal s) !! x = Some c /\ wB (wfinal s) !! x = Some c).
+  { intros x Hx Ex. exists x. destruct (run_lookup s Hok F x) as (-> & -> & _). auto. }
+  destruct (conflict_name_dec s p) as [[[p' l] E]|N].
+  - (* [p] is itself a conflict name of this run: it held the loser on both sides *)
+    cbn in E. destruct (fresh_name_key s p' p l F E Hk) as [Ea Eb].
+    assert (c = l) as -> by (destruct sd; cbn in Hc; congruence).
+    left. apply (L p); [auto|]. apply (expected_name _ _ _ _ F E).
+  - pose proof (expected_other s p N) as Ep. unfold fin, final_content in Ep.
+    destruct sd; cbn in Hc |- *.
+    + rewrite Hc in Ep. destruct (tB s !! p) as [y|] eqn:Eb.
+      * destruct (decide (Hh c = Hh y)) as [E1|N1]; [left; apply (L p); auto|].
+        destruct (decide (base_at (arch s) p = Some (Hh y))) as [E2|N2]; [left; apply (L p); auto|].
+        destruct (decide (base_at (arch s) p = Some (Hh c))) as [E3|N3].
+        { right. apply base_at_Some in E3 as (z & -> & Ez). exists z. split; [reflexivity|]. split; [exact Ez|]. congruence. }
+        assert (Ec : conflict s p = Some (cname p (Hh (loser c y)), loser c y)).
+        { apply conflict_changed. exists c, y. auto 10. }
+        left. unfold winner in Ep. unfold loser in Ec. destruct (dge (Hh c) (Hh y)).
+        -- apply (L p); auto.
+        -- apply (L (cname p (Hh c))); [auto|]. apply (expected_name _ _ _ _ F Ec).
+      * destruct (decide (base_at (arch s) p = Some (Hh c))) as [E3|N3]; [|left; apply (L p); auto].
+        right. apply base_at_Some in E3 as (z & -> & Ez). exists z. split; [reflexivity|]. split; [exact Ez|]. congruence.
+    + rewrite Hc in Ep. destruct (tA s !! p) as [x|] eqn:Ea.
+      * destruct (decide (Hh x = Hh c)) as [E1|N1].
+        { left. apply (L p); [auto|]. rewrite Ep. f_equal. eapply Hok; eauto. }
+        destruct (decide (base_at (arch s) p = Some (Hh c))) as [E2|N2].
+        { right. apply base_at_Some in E2 as (z & -> & Ez). exists z. split; [reflexivity|]. split; [exact Ez|]. congruence. }
+        destruct (decide (base_at (arch s) p = Some (Hh x))) as [E3|N3]; [left; apply (L p); auto|].
+        assert (Ec : conflict s p = Some (cname p (Hh (loser x c)), loser x c)).
+        { apply conflict_changed. exists x, c. auto 10. }
+        left. unfold winner in Ep. unfold loser in Ec. destruct (dge (Hh x) (Hh c)).
+        -- apply (L (cname p (Hh c))); [auto|]. apply (expected_name _ _ _ _ F Ec).
+        -- apply (L p); auto.
+      * destruct (decide (base_at (arch s) p = Some (Hh c))) as [E3|N3]; [|left; apply (L p); auto].
+        right. apply base_at_Some in E3 as (z & -> & Ez). exists z. split; [reflexivity|]. split; [exact Ez|]. congruence.
+Qed.
+
 End BisyncProofs.
